@@ -316,7 +316,9 @@ class Response:
         )
 
         cLength = None
-        if self.body is not None:
+        # A streamed response is not sized by what happens to be in the body
+        # now: more data follows in ``stream`` events.
+        if self.body is not None and not self.stream:
             if isinstance(self.body, bytes):
                 cLength = len(self.body)
             elif isinstance(self.body, str):
@@ -326,13 +328,14 @@ class Response:
                     len(s.encode(self.encoding)) if not isinstance(s, bytes) else len(s) for s in self.body if s is not None
                 )
 
-        if cLength is not None:
+        status = self.status
+
+        # 1xx and 204 responses must not carry a Content-Length (RFC 7230 3.3.2)
+        if cLength is not None and not (status < 200 or status == 204):
             self.headers['Content-Length'] = str(cLength)
 
         for v in self.cookie.values():
             self.headers.add_header('Set-Cookie', v.OutputString())
-
-        status = self.status
 
         if status == 413:
             self.close = True
